@@ -251,10 +251,11 @@ def gen_spec(rng, tmpl, opts=None):
             continue
         n = choose_count(rng, tb, opts)
         entries = []
-        for _ in range(n):
+        for ei in range(n):
             ent = {}
             for var in tb.variables:
-                if fill and rng.random() < opts.get("p_unset", 0.4):
+                # "mixed marks": the first entry of a list is complete (and will not be marked for filling)
+                if fill and not (opts.get("fill_mixed") and ei == 0) and rng.random() < opts.get("p_unset", 0.4):
                     ent[var.name] = ["unset"]
                 else:
                     ent[var.name] = gen_value(rng, var, opts)
@@ -279,7 +280,7 @@ def gen_spec(rng, tmpl, opts=None):
         extra = bytes(rng.choice([0, 0, 1, 0xff, rng.getrandbits(8)]) for _ in range(n))
     packet_id = rng.choice([0, 1, 2, 2 ** 31, 2 ** 32 - 1, rng.getrandbits(32), rng.randint(1, 100000)])
     return {"name": tmpl.name, "flags": flags, "packet_id": packet_id, "acks": acks, "extra": extra,
-            "blocks": blocks, "fill": fill}
+            "blocks": blocks, "fill": fill, "fill_mixed": bool(fill and opts.get("fill_mixed"))}
 
 
 def approx_body_size(spec) -> int:
@@ -313,9 +314,13 @@ def build_message(spec) -> Message:
             continue
         if not entries:
             empty_lists.append(bname)
-        for ent in entries:
+        for ei, ent in enumerate(entries):
             kwargs = {k: build_value(v) for k, v in ent.items() if v[0] != "unset"}
-            blocks.append(Block(bname, fill_missing=bool(spec.get("fill")), **kwargs))
+            mark = bool(spec.get("fill"))
+            if spec.get("fill_mixed"):
+                # the mark is a per-block property: complete blocks are left unmarked here, incomplete ones are marked
+                mark = any(v[0] == "unset" for v in ent.values())
+            blocks.append(Block(bname, fill_missing=mark, **kwargs))
     msg = Message(spec["name"], packet_id=spec["packet_id"], flags=spec["flags"], acks=tuple(spec["acks"]))
     # keep template order, including present-but-empty block lists
     for (bname, entries) in spec["blocks"]:
